@@ -203,11 +203,36 @@ def parse_coq_value(txt: str) -> Any:
     if k < 0:
         k = body.rfind(": ")
     body = body[:k]
-    body = body.replace("\n", " ").replace(";", ",").replace("%Z", "").replace("%string", "")
-    body = re.sub(r"\btrue\b", "True", body)
-    body = re.sub(r"\bfalse\b", "False", body)
-    body = re.sub(r"\bNone\b", "None", body)
-    body = re.sub(r'""', '\\"', body) if '""' in body else body
+    # tokenise: Coq strings are "..." with "" as the escaped quote; everything else is Z / bool / list / tuple syntax
+    out = []
+    k, n = 0, len(body)
+    while k < n:
+        ch = body[k]
+        if ch == '"':
+            k += 1
+            buf = []
+            while k < n:
+                if body[k] == '"':
+                    if k + 1 < n and body[k + 1] == '"':
+                        buf.append('"')
+                        k += 2
+                        continue
+                    break
+                buf.append(body[k])
+                k += 1
+            k += 1
+            out.append(json.dumps("".join(buf)))
+        else:
+            out.append(ch)
+            k += 1
+    body = "".join(out)
+    parts = re.split(r'("(?:[^"\\]|\\.)*")', body)
+    for q in range(0, len(parts), 2):
+        t = parts[q].replace("\n", " ").replace(";", ",").replace("%Z", "").replace("%string", "").replace("%nat", "")
+        t = re.sub(r"\btrue\b", "True", t)
+        t = re.sub(r"\bfalse\b", "False", t)
+        parts[q] = t
+    body = "".join(parts)
     return ast.literal_eval(body.strip())
 
 
